@@ -75,7 +75,7 @@ class World:
         self.files.setdefault(fname, {})[f"test_{self.counter}"] = {"payload": payload or self.new_payload(), "arg": None}
 
     def source(self, fname, args=None):
-        L = ["from inline_snapshot import snapshot, outsource, external", "", "", "def _boom(x):", "    raise RuntimeError('bug in the code under test')", ""]
+        L = ["from inline_snapshot import snapshot, outsource, external", "from inline_snapshot import external as ext", "", "", "def _boom(x):", "    raise RuntimeError('bug in the code under test')", ""]
         for name, t in self.files[fname].items():
             p, sfx = t["payload"]
             if t.get("broken"):
@@ -104,7 +104,7 @@ def payload_bytes(p):
 def references(text):
     out = []
     for n in ast.walk(ast.parse(text)):
-        if isinstance(n, ast.Call) and isinstance(n.func, ast.Name) and n.func.id == "external" and n.args and isinstance(n.args[0], ast.Constant):
+        if isinstance(n, ast.Call) and isinstance(n.func, ast.Name) and n.func.id in ("external", "ext") and n.args and isinstance(n.args[0], ast.Constant):
             out.append(n.args[0].value)
     return out
 
@@ -125,6 +125,7 @@ def matches(ref, name):
 
 SCRIPTS = [
     (12, [("none", "create"), ("break_test", "trim"), ("none", "none")]),
+    (12, [("none", "create"), ("alias_reference", "trim"), ("none", "none"), ("none", "disable")]),
     (12, [("none", "create"), ("same_bytes_other_suffix", "create"), ("none", "none"), ("none", "disable")]),
     (12, [("none", "all"), ("break_test", "all"), ("none", "disable")]),
     (8, [("none", "create"), ("change_hash_length:16", "trim"), ("none", "none"), ("none", "disable")]),
@@ -157,7 +158,7 @@ def run_history(rng, args, out, C, hidx, script=None):
         proj.write({"pyproject.toml": "\n".join(pp) + "\n"})
         steps = []
         for step in range(len(script[1]) if script else rng.randint(4, 8)):
-            edit = rng.choice(["none", "change_data", "change_data", "add_test", "remove_test", "add_file", "equal_payloads", "change_hash_length", "shorten_reference", "break_test", "same_bytes_other_suffix"]) if step else "none"
+            edit = rng.choice(["none", "change_data", "change_data", "add_test", "remove_test", "add_file", "equal_payloads", "change_hash_length", "shorten_reference", "break_test", "same_bytes_other_suffix", "alias_reference"]) if step else "none"
             forced_len = None
             if script:
                 edit, forced_flag = script[1][step]
@@ -179,6 +180,13 @@ def run_history(rng, args, out, C, hidx, script=None):
             elif edit == "equal_payloads" and len(fnames) > 1:
                 src_t = rng.choice(list(w.files["test_a.py"].values()))
                 w.add_test("test_b.py", payload=src_t["payload"])
+            elif edit == "alias_reference" and w.files[f0]:
+                # the user refers to the external through another name for the same function
+                cands = [t for t in w.files[f0].values() if t["arg"] and t["arg"].startswith("external(")]
+                if cands:
+                    t = rng.choice(cands)
+                    t["arg"] = "ext(" + t["arg"][len("external(") :]
+                    C["alias_reference_steps"] = C.get("alias_reference_steps", 0) + 1
             elif edit == "same_bytes_other_suffix" and w.files[f0]:
                 # the same bytes outsourced under another suffix are another stored file
                 src_t = rng.choice(list(w.files[f0].values()))
@@ -273,9 +281,9 @@ def run_history(rng, args, out, C, hidx, script=None):
                 for fname in participating:
                     for tname, t in w.files.get(fname, {}).items():
                         arg = t["arg"]
-                        if not arg or not arg.startswith("external("):
+                        if not arg or not arg.startswith(("external(", "ext(")):
                             continue
-                        ref = ast.literal_eval(arg[len("external(") : -1])
+                        ref = ast.literal_eval(arg[arg.index("(") + 1 : -1])
                         data = payload_bytes(t["payload"][0])
                         full = sha(data)
                         m = re.fullmatch(r"([0-9a-fA-F]*)\*?(\..*)", ref)
